@@ -72,6 +72,21 @@ def cmd_validate(_args) -> int:
     return subprocess.call(['python3-vt', '-c', code])
 
 
+def cmd_setup(_args) -> int:
+    """Offline setup: nothing to download or build ahead of time; verify the tool chain."""
+    os.makedirs(os.path.join(core.VERIF, '.cache'), exist_ok=True)
+    os.makedirs(core.EVIDENCE_DIR, exist_ok=True)
+    core.import_guard()
+    for tool in (['g++', '--version'], ['clang++', '--version']):
+        try:
+            subprocess.run(tool, check=True, capture_output=True)
+        except Exception as exc:  # pylint: disable=broad-except
+            print(f'setup: {tool[0]} not usable: {exc}')
+            return 1
+    print('setup ok')
+    return 0
+
+
 def main():
     par = argparse.ArgumentParser(prog='vf')
     sub = par.add_subparsers(dest='cmd', required=True)
@@ -84,6 +99,8 @@ def main():
     rep.set_defaults(fn=cmd_replay)
     val = sub.add_parser('validate')
     val.set_defaults(fn=cmd_validate)
+    stp = sub.add_parser('setup')
+    stp.set_defaults(fn=cmd_setup)
     args = par.parse_args()
     sys.stdout.reconfigure(line_buffering=True)
     sys.exit(args.fn(args))
